@@ -290,7 +290,10 @@ func checkImports(t *FileTruth, src string) []ImportProblem {
 				}
 				continue
 			}
-			if s.name != "" {
+			if q == "_" || (s.name == "_" && q != "") {
+				// a blank import binds no name: nothing can be referred to through it
+				add("C03", "blank-import-referenced", fmt.Sprintf("path %q is referenced as %s.… but imported as %q: a blank import provides no name", p, q, s.name))
+			} else if s.name != "" {
 				if s.name != q {
 					add("C03", "wrong-binding", fmt.Sprintf("path %q imported as %s but referenced as %s", p, s.name, q))
 				}
